@@ -144,7 +144,7 @@ pub fn check_case(w: &World, algo: &Algo, orient: &Orient, reverse: bool, st: &m
 }
 
 fn is_metric(spec: &GenSpec) -> bool {
-    spec.mode == LenMode::Metric
+    spec.mode == LenMode::Metric || spec.mode == LenMode::LineMetric
 }
 
 pub fn for_net(spec: &GenSpec, net: &Net, tier: Tier, idx: u64, st: &mut Stats) {
@@ -259,6 +259,7 @@ pub fn specs(tier: Tier) -> Vec<GenSpec> {
             GenSpec { n: 4, max_edges: 5, max_mult: 2, n_len: 1, self_loops: false, mode: LenMode::PowersOfTwo },
             GenSpec { n: 4, max_edges: 5, max_mult: 1, n_len: 2, self_loops: false, mode: LenMode::Metric },
             GenSpec { n: 4, max_edges: 4, max_mult: 2, n_len: 3, self_loops: false, mode: LenMode::Alphabet },
+            GenSpec { n: 4, max_edges: 4, max_mult: 1, n_len: 3, self_loops: false, mode: LenMode::LineMetric },
         ],
         Tier::Thorough => vec![
             GenSpec { n: 3, max_edges: 6, max_mult: 2, n_len: 2, self_loops: true, mode: LenMode::Alphabet },
@@ -267,6 +268,8 @@ pub fn specs(tier: Tier) -> Vec<GenSpec> {
             GenSpec { n: 4, max_edges: 5, max_mult: 1, n_len: 2, self_loops: false, mode: LenMode::Metric },
             GenSpec { n: 4, max_edges: 5, max_mult: 1, n_len: 3, self_loops: false, mode: LenMode::Metric },
             GenSpec { n: 5, max_edges: 5, max_mult: 1, n_len: 1, self_loops: false, mode: LenMode::Metric },
+            GenSpec { n: 4, max_edges: 5, max_mult: 1, n_len: 3, self_loops: false, mode: LenMode::LineMetric },
+            GenSpec { n: 5, max_edges: 5, max_mult: 1, n_len: 2, self_loops: false, mode: LenMode::LineMetric },
         ],
     }
 }
